@@ -4,4 +4,4 @@ From Coq Require Import Extraction ExtrOcamlBasic.
 From Pi2 Require Import Taut.Model Taut.PLModel.
 Extraction Language OCaml.
 Extraction "taut_model.ml" expand to_conj_form propag_neg to_cnf to_clauses mkset resolvable is_trivial
-  start_resolution decide simplify_clause build_term tt cf_tt clauses_tt d6_witness tcfp pnp to_cnf_p to_clauses_p prove_tautology_p start_resolution_p spec_pieces s_merge clause_core.
+  start_resolution decide simplify_clause build_term tt cf_tt clauses_tt d6_witness tcfp pnp to_cnf_p to_clauses_p prove_tautology_p start_resolution_p spec_pieces model_pieces s_merge clause_core s_simplify s_trivial or_move_to_front.
